@@ -1,8 +1,8 @@
-(* C20: derived parameters stay in sync with updates; constraints are enforced on every assignment;
-   specification-level statement about the calibration.  Definitions: Model/Params.v and the
-   generated Gen/GenC20Params.v (constraint predicates, class-level guards, derived-field
-   expressions translated twice: from __init__ and from initialisation()). *)
-From Coq Require Import ZArith QArith Qabs Bool List Lia.
+(* C20: derived parameters stay in sync with updates; constraints are enforced on every assignment; specification-level
+   statements about the calibration.  Definitions: Model/Params.v and the generated Gen/GenC20Params.v (constraint
+   predicates, class-level guards, number of stored attributes, derived-field expressions translated twice: from __init__
+   and from initialisation()). *)
+From Coq Require Import ZArith QArith Qabs Bool List Lia Lqa.
 From RV Require Import Base.QB Gen.GenC20Params Model.Params.
 Import ListNotations.
 Open Scope Q_scope.
@@ -38,15 +38,17 @@ Variable fsqrt : Q -> Q.
 Variable fgamma : Q -> Q.
 Variable fpow : Q -> Q -> Q.
 
-(* ================================================================== HEM *)
+(* ================================================================== hem *)
 Lemma hem_init_eq_reinit sigma p eta1 eta2 intensity :
   hem_init_xi sigma p eta1 eta2 intensity = hem_reinit_xi sigma p eta1 eta2 intensity.
+Proof. repeat split; reflexivity. Qed.
+Lemma hem_initialisation_is_build r : hem_initialisation r = hem_build (h_sigma r) (h_p r) (h_eta1 r) (h_eta2 r) (h_intensity r).
+Proof.
+  unfold hem_initialisation, hem_build. pose proof (hem_init_eq_reinit (h_sigma r) (h_p r) (h_eta1 r) (h_eta2 r) (h_intensity r)) as E.
+  f_equal; try (symmetry; apply E); try (symmetry; apply (proj1 E)); try (symmetry; apply (proj1 (proj2 E))); try (symmetry; apply (proj2 (proj2 E))).
+Qed.
+Lemma hem_fields_complete r : length (hem_fields r) = hem_nfields.
 Proof. reflexivity. Qed.
-
-Lemma hem_initialisation_is_build r :
-  hem_initialisation r = hem_build (h_sigma r) (h_p r) (h_eta1 r) (h_eta2 r) (h_intensity r).
-Proof. unfold hem_initialisation, hem_build. f_equal; try (symmetry; apply hem_init_eq_reinit). Qed.
-
 Lemma hem_set_valid r f v : hem_valid r = true -> hem_valid (fst (hem_set r f v)) = true.
 Proof.
   intro H. unfold hem_set. destruct (hem_guard f v) eqn:E; [|exact H].
@@ -54,33 +56,32 @@ Proof.
 Qed.
 Lemma hem_run_valid ops : forall r, hem_valid r = true -> hem_valid (hem_run ops r) = true.
 Proof. induction ops as [|op ops IH]; intros r H; simpl; [exact H|]. apply IH, hem_set_valid, H. Qed.
-Lemma hem_valid_initialisation r : hem_valid (hem_initialisation r) = hem_valid r.
-Proof. reflexivity. Qed.
 Lemma hem_construct_valid sigma p eta1 eta2 intensity r :
-  hem_construct sigma p eta1 eta2 intensity = Some r -> hem_valid r = true /\ r = hem_build sigma p eta1 eta2 intensity.
-Proof. unfold hem_construct. destruct (hem_valid _) eqn:E; intro H; inversion H; subst; auto. Qed.
-Lemma hem_rebuild_valid r : hem_valid r = true -> hem_rebuild r = Some (hem_initialisation r).
+  hem_construct sigma p eta1 eta2 intensity = Built r -> hem_valid r = true /\ hem_defined r = true /\ r = hem_build sigma p eta1 eta2 intensity.
+Proof. unfold hem_construct. destruct (hem_valid _) eqn:E; [destruct (hem_defined _) eqn:D|]; intro H; inversion H; subst; auto. Qed.
+Lemma hem_rebuild_valid r : hem_valid r = true -> hem_rebuild r = hem_initialisation_checked r.
 Proof.
-  intro H. unfold hem_rebuild, hem_construct. rewrite <- hem_initialisation_is_build.
-  rewrite hem_valid_initialisation, H. reflexivity.
+  intro H. unfold hem_rebuild, hem_construct, hem_initialisation_checked. rewrite <- hem_initialisation_is_build.
+  change (hem_valid (hem_initialisation r)) with (hem_valid r). change (hem_defined (hem_initialisation r)) with (hem_defined r).
+  rewrite H. reflexivity.
 Qed.
 Lemma hem_sync ops r0 : hem_valid r0 = true ->
-  hem_rebuild (hem_run ops r0) = Some (hem_initialisation (hem_run ops r0)).
+  hem_rebuild (hem_run ops r0) = hem_initialisation_checked (hem_run ops r0).
 Proof. intro H. apply hem_rebuild_valid, hem_run_valid, H. Qed.
-
 Lemma hem_set_rejects r f v : hem_guard f v = false -> hem_set r f v = (r, false).
 Proof. intro H. unfold hem_set. rewrite H. reflexivity. Qed.
 Lemma hem_set_accepts r f v : hem_guard f v = true -> hem_set r f v = (hem_write f v r, true).
 Proof. intro H. unfold hem_set. rewrite H. reflexivity. Qed.
-Lemma hem_guard_spec v :
-  (hem_guard HSigma v = true <-> 0 <= v) /\ (hem_guard HP v = true <-> 0 < v) /\ (hem_guard HEta1 v = true <-> 0 < v)
-  /\ (hem_guard HEta2 v = true <-> 0 < v) /\ (hem_guard HIntensity v = true <-> 0 <= v) /\ hem_guard HXi v = true.
-Proof.
-  simpl. unfold hem_guard_sigma, hem_guard_p, hem_guard_eta1, hem_guard_eta2, hem_guard_intensity.
-  repeat split; try apply cond_positive_spec; try apply cond_strictly_positive_spec.
-Qed.
+(* the value of the objective at a trial value does not depend on the earlier trial values written into the same copy *)
+Lemma hem_trial_absorbs r f x y : hem_guard f x = true -> hem_guard f y = true ->
+  hem_initialisation (fst (hem_set (hem_initialisation (fst (hem_set r f y))) f x)) = hem_initialisation (fst (hem_set r f x)).
+Proof. intros Hx Hy. unfold hem_set. rewrite Hx, Hy. destruct f; reflexivity. Qed.
 
-(* ================================================================== Merton *)
+(* ================================================================== merton *)
+Lemma merton_initialisation_is_build r : merton_initialisation r = merton_build (m_sigma r) (m_mu_j r) (m_sigma_j r) (m_intensity r).
+Proof. unfold merton_initialisation, merton_build. destruct r; reflexivity. Qed.
+Lemma merton_fields_complete r : length (merton_fields r) = merton_nfields.
+Proof. reflexivity. Qed.
 Lemma merton_set_valid r f v : merton_valid r = true -> merton_valid (fst (merton_set r f v)) = true.
 Proof.
   intro H. unfold merton_set. destruct (merton_guard f v) eqn:E; [|exact H].
@@ -89,41 +90,37 @@ Qed.
 Lemma merton_run_valid ops : forall r, merton_valid r = true -> merton_valid (merton_run ops r) = true.
 Proof. induction ops as [|op ops IH]; intros r H; simpl; [exact H|]. apply IH, merton_set_valid, H. Qed.
 Lemma merton_construct_valid sigma mu_j sigma_j intensity r :
-  merton_construct sigma mu_j sigma_j intensity = Some r -> merton_valid r = true /\ r = merton_build sigma mu_j sigma_j intensity.
-Proof. unfold merton_construct. destruct (merton_valid _) eqn:E; intro H; inversion H; subst; auto. Qed.
-Lemma merton_rebuild_valid r : merton_valid r = true -> merton_rebuild r = Some (merton_initialisation r).
+  merton_construct sigma mu_j sigma_j intensity = Built r -> merton_valid r = true /\ merton_defined r = true /\ r = merton_build sigma mu_j sigma_j intensity.
+Proof. unfold merton_construct. destruct (merton_valid _) eqn:E; [destruct (merton_defined _) eqn:D|]; intro H; inversion H; subst; auto. Qed.
+Lemma merton_rebuild_valid r : merton_valid r = true -> merton_rebuild r = merton_initialisation_checked r.
 Proof.
-  intro H. unfold merton_rebuild, merton_construct, merton_initialisation.
-  replace (merton_build (m_sigma r) (m_mu_j r) (m_sigma_j r) (m_intensity r)) with r by (destruct r; reflexivity).
+  intro H. unfold merton_rebuild, merton_construct, merton_initialisation_checked. rewrite <- merton_initialisation_is_build.
+  change (merton_valid (merton_initialisation r)) with (merton_valid r). change (merton_defined (merton_initialisation r)) with (merton_defined r).
   rewrite H. reflexivity.
 Qed.
 Lemma merton_sync ops r0 : merton_valid r0 = true ->
-  merton_rebuild (merton_run ops r0) = Some (merton_initialisation (merton_run ops r0)).
+  merton_rebuild (merton_run ops r0) = merton_initialisation_checked (merton_run ops r0).
 Proof. intro H. apply merton_rebuild_valid, merton_run_valid, H. Qed.
 Lemma merton_set_rejects r f v : merton_guard f v = false -> merton_set r f v = (r, false).
 Proof. intro H. unfold merton_set. rewrite H. reflexivity. Qed.
 Lemma merton_set_accepts r f v : merton_guard f v = true -> merton_set r f v = (merton_write f v r, true).
 Proof. intro H. unfold merton_set. rewrite H. reflexivity. Qed.
-Lemma merton_guard_spec v :
-  (merton_guard MSigma v = true <-> 0 <= v) /\ (merton_guard MMuJ v = true <-> 0 <= v)
-  /\ (merton_guard MSigmaJ v = true <-> 0 < v) /\ (merton_guard MIntensity v = true <-> 0 <= v).
-Proof.
-  simpl. unfold merton_guard_sigma, merton_guard_mu_j, merton_guard_sigma_j, merton_guard_intensity.
-  repeat split; try apply cond_positive_spec; try apply cond_strictly_positive_spec.
-Qed.
+(* the value of the objective at a trial value does not depend on the earlier trial values written into the same copy *)
+Lemma merton_trial_absorbs r f x y : merton_guard f x = true -> merton_guard f y = true ->
+  merton_initialisation (fst (merton_set (merton_initialisation (fst (merton_set r f y))) f x)) = merton_initialisation (fst (merton_set r f x)).
+Proof. intros Hx Hy. unfold merton_set. rewrite Hx, Hy. destruct f; reflexivity. Qed.
 
-(* ================================================================== Variance Gamma *)
+(* ================================================================== vg *)
 Lemma vg_init_eq_reinit sigma nu theta :
-  vg_init_c fsqrt sigma nu theta = vg_reinit_c fsqrt sigma nu theta
-  /\ vg_init_lambda_p fsqrt sigma nu theta = vg_reinit_lambda_p fsqrt sigma nu theta
-  /\ vg_init_lambda_m fsqrt sigma nu theta = vg_reinit_lambda_m fsqrt sigma nu theta.
+  vg_init_c fsqrt sigma nu theta = vg_reinit_c fsqrt sigma nu theta /\ vg_init_lambda_p fsqrt sigma nu theta = vg_reinit_lambda_p fsqrt sigma nu theta /\ vg_init_lambda_m fsqrt sigma nu theta = vg_reinit_lambda_m fsqrt sigma nu theta.
 Proof. repeat split; reflexivity. Qed.
-Lemma vg_initialisation_is_build r :
-  vg_initialisation fsqrt r = vg_build fsqrt (v_sigma r) (v_nu r) (v_theta r).
+Lemma vg_initialisation_is_build r : vg_initialisation fsqrt r = vg_build fsqrt (v_sigma r) (v_nu r) (v_theta r).
 Proof.
-  unfold vg_initialisation, vg_build.
-  destruct (vg_init_eq_reinit (v_sigma r) (v_nu r) (v_theta r)) as (E1 & E2 & E3). f_equal; try (symmetry; assumption).
+  unfold vg_initialisation, vg_build. pose proof (vg_init_eq_reinit (v_sigma r) (v_nu r) (v_theta r)) as E.
+  f_equal; try (symmetry; apply E); try (symmetry; apply (proj1 E)); try (symmetry; apply (proj1 (proj2 E))); try (symmetry; apply (proj2 (proj2 E))).
 Qed.
+Lemma vg_fields_complete r : length (vg_fields r) = vg_nfields.
+Proof. reflexivity. Qed.
 Lemma vg_set_valid r f v : vg_valid r = true -> vg_valid (fst (vg_set r f v)) = true.
 Proof.
   intro H. unfold vg_set. destruct (vg_guard f v) eqn:E; [|exact H].
@@ -132,38 +129,37 @@ Qed.
 Lemma vg_run_valid ops : forall r, vg_valid r = true -> vg_valid (vg_run ops r) = true.
 Proof. induction ops as [|op ops IH]; intros r H; simpl; [exact H|]. apply IH, vg_set_valid, H. Qed.
 Lemma vg_construct_valid sigma nu theta r :
-  vg_construct fsqrt sigma nu theta = Some r -> vg_valid r = true /\ r = vg_build fsqrt sigma nu theta.
-Proof. unfold vg_construct. destruct (vg_valid _) eqn:E; intro H; inversion H; subst; auto. Qed.
-Lemma vg_rebuild_valid r : vg_valid r = true -> vg_rebuild fsqrt r = Some (vg_initialisation fsqrt r).
+  vg_construct fsqrt sigma nu theta = Built r -> vg_valid r = true /\ vg_defined r = true /\ r = vg_build fsqrt sigma nu theta.
+Proof. unfold vg_construct. destruct (vg_valid _) eqn:E; [destruct (vg_defined _) eqn:D|]; intro H; inversion H; subst; auto. Qed.
+Lemma vg_rebuild_valid r : vg_valid r = true -> vg_rebuild fsqrt r = vg_initialisation_checked fsqrt r.
 Proof.
-  intro H. unfold vg_rebuild, vg_construct. rewrite <- vg_initialisation_is_build.
-  change (vg_valid (vg_initialisation fsqrt r)) with (vg_valid r). rewrite H. reflexivity.
+  intro H. unfold vg_rebuild, vg_construct, vg_initialisation_checked. rewrite <- vg_initialisation_is_build.
+  change (vg_valid (vg_initialisation fsqrt r)) with (vg_valid r). change (vg_defined (vg_initialisation fsqrt r)) with (vg_defined r).
+  rewrite H. reflexivity.
 Qed.
 Lemma vg_sync ops r0 : vg_valid r0 = true ->
-  vg_rebuild fsqrt (vg_run ops r0) = Some (vg_initialisation fsqrt (vg_run ops r0)).
+  vg_rebuild fsqrt (vg_run ops r0) = vg_initialisation_checked fsqrt (vg_run ops r0).
 Proof. intro H. apply vg_rebuild_valid, vg_run_valid, H. Qed.
 Lemma vg_set_rejects r f v : vg_guard f v = false -> vg_set r f v = (r, false).
 Proof. intro H. unfold vg_set. rewrite H. reflexivity. Qed.
 Lemma vg_set_accepts r f v : vg_guard f v = true -> vg_set r f v = (vg_write f v r, true).
 Proof. intro H. unfold vg_set. rewrite H. reflexivity. Qed.
-(* only sigma is constrained in the code: nu and theta are plain attributes *)
-Lemma vg_guard_spec v :
-  (vg_guard VSigma v = true <-> 0 <= v) /\ vg_guard VNu v = true /\ vg_guard VTheta v = true
-  /\ vg_guard VC v = true /\ vg_guard VLambdaP v = true /\ vg_guard VLambdaM v = true.
-Proof. simpl. unfold vg_guard_sigma, vg_guard_nu, vg_guard_theta. repeat split; apply cond_positive_spec. Qed.
+(* the value of the objective at a trial value does not depend on the earlier trial values written into the same copy *)
+Lemma vg_trial_absorbs r f x y : vg_guard f x = true -> vg_guard f y = true ->
+  vg_initialisation fsqrt (fst (vg_set (vg_initialisation fsqrt (fst (vg_set r f y))) f x)) = vg_initialisation fsqrt (fst (vg_set r f x)).
+Proof. intros Hx Hy. unfold vg_set. rewrite Hx, Hy. destruct f; reflexivity. Qed.
 
-(* ================================================================== CGMY *)
+(* ================================================================== cgmy *)
 Lemma cgmy_init_eq_reinit c g m y :
-  cgmy_init_CGammamY fgamma fpow c g m y = cgmy_reinit_CGammamY fgamma fpow c g m y
-  /\ cgmy_init_MpowerY fgamma fpow c g m y = cgmy_reinit_MpowerY fgamma fpow c g m y
-  /\ cgmy_init_GpowerY fgamma fpow c g m y = cgmy_reinit_GpowerY fgamma fpow c g m y.
+  cgmy_init_CGammamY fgamma fpow c g m y = cgmy_reinit_CGammamY fgamma fpow c g m y /\ cgmy_init_MpowerY fgamma fpow c g m y = cgmy_reinit_MpowerY fgamma fpow c g m y /\ cgmy_init_GpowerY fgamma fpow c g m y = cgmy_reinit_GpowerY fgamma fpow c g m y.
 Proof. repeat split; reflexivity. Qed.
-Lemma cgmy_initialisation_is_build r :
-  cgmy_initialisation fgamma fpow r = cgmy_build fgamma fpow (c_c r) (c_g r) (c_m r) (c_y r).
+Lemma cgmy_initialisation_is_build r : cgmy_initialisation fgamma fpow r = cgmy_build fgamma fpow (c_c r) (c_g r) (c_m r) (c_y r).
 Proof.
-  unfold cgmy_initialisation, cgmy_build.
-  destruct (cgmy_init_eq_reinit (c_c r) (c_g r) (c_m r) (c_y r)) as (E1 & E2 & E3). f_equal; try (symmetry; assumption).
+  unfold cgmy_initialisation, cgmy_build. pose proof (cgmy_init_eq_reinit (c_c r) (c_g r) (c_m r) (c_y r)) as E.
+  f_equal; try (symmetry; apply E); try (symmetry; apply (proj1 E)); try (symmetry; apply (proj1 (proj2 E))); try (symmetry; apply (proj2 (proj2 E))).
 Qed.
+Lemma cgmy_fields_complete r : length (cgmy_fields r) = cgmy_nfields.
+Proof. reflexivity. Qed.
 Lemma cgmy_set_valid r f v : cgmy_valid r = true -> cgmy_valid (fst (cgmy_set r f v)) = true.
 Proof.
   intro H. unfold cgmy_set. destruct (cgmy_guard f v) eqn:E; [|exact H].
@@ -172,20 +168,85 @@ Qed.
 Lemma cgmy_run_valid ops : forall r, cgmy_valid r = true -> cgmy_valid (cgmy_run ops r) = true.
 Proof. induction ops as [|op ops IH]; intros r H; simpl; [exact H|]. apply IH, cgmy_set_valid, H. Qed.
 Lemma cgmy_construct_valid c g m y r :
-  cgmy_construct fgamma fpow c g m y = Some r -> cgmy_valid r = true /\ r = cgmy_build fgamma fpow c g m y.
-Proof. unfold cgmy_construct. destruct (cgmy_valid _) eqn:E; intro H; inversion H; subst; auto. Qed.
-Lemma cgmy_rebuild_valid r : cgmy_valid r = true -> cgmy_rebuild fgamma fpow r = Some (cgmy_initialisation fgamma fpow r).
+  cgmy_construct fgamma fpow c g m y = Built r -> cgmy_valid r = true /\ cgmy_defined r = true /\ r = cgmy_build fgamma fpow c g m y.
+Proof. unfold cgmy_construct. destruct (cgmy_valid _) eqn:E; [destruct (cgmy_defined _) eqn:D|]; intro H; inversion H; subst; auto. Qed.
+Lemma cgmy_rebuild_valid r : cgmy_valid r = true -> cgmy_rebuild fgamma fpow r = cgmy_initialisation_checked fgamma fpow r.
 Proof.
-  intro H. unfold cgmy_rebuild, cgmy_construct. rewrite <- cgmy_initialisation_is_build.
-  change (cgmy_valid (cgmy_initialisation fgamma fpow r)) with (cgmy_valid r). rewrite H. reflexivity.
+  intro H. unfold cgmy_rebuild, cgmy_construct, cgmy_initialisation_checked. rewrite <- cgmy_initialisation_is_build.
+  change (cgmy_valid (cgmy_initialisation fgamma fpow r)) with (cgmy_valid r). change (cgmy_defined (cgmy_initialisation fgamma fpow r)) with (cgmy_defined r).
+  rewrite H. reflexivity.
 Qed.
 Lemma cgmy_sync ops r0 : cgmy_valid r0 = true ->
-  cgmy_rebuild fgamma fpow (cgmy_run ops r0) = Some (cgmy_initialisation fgamma fpow (cgmy_run ops r0)).
+  cgmy_rebuild fgamma fpow (cgmy_run ops r0) = cgmy_initialisation_checked fgamma fpow (cgmy_run ops r0).
 Proof. intro H. apply cgmy_rebuild_valid, cgmy_run_valid, H. Qed.
 Lemma cgmy_set_rejects r f v : cgmy_guard f v = false -> cgmy_set r f v = (r, false).
 Proof. intro H. unfold cgmy_set. rewrite H. reflexivity. Qed.
 Lemma cgmy_set_accepts r f v : cgmy_guard f v = true -> cgmy_set r f v = (cgmy_write f v r, true).
 Proof. intro H. unfold cgmy_set. rewrite H. reflexivity. Qed.
+(* the value of the objective at a trial value does not depend on the earlier trial values written into the same copy *)
+Lemma cgmy_trial_absorbs r f x y : cgmy_guard f x = true -> cgmy_guard f y = true ->
+  cgmy_initialisation fgamma fpow (fst (cgmy_set (cgmy_initialisation fgamma fpow (fst (cgmy_set r f y))) f x)) = cgmy_initialisation fgamma fpow (fst (cgmy_set r f x)).
+Proof. intros Hx Hy. unfold cgmy_set. rewrite Hx, Hy. destruct f; reflexivity. Qed.
+
+(* ================================================================== bs *)
+Lemma bs_init_eq_reinit sigma :
+  bs_init_variance sigma = bs_reinit_variance sigma.
+Proof. repeat split; reflexivity. Qed.
+Lemma bs_initialisation_is_build r : bs_initialisation r = bs_build (b_sigma r).
+Proof.
+  unfold bs_initialisation, bs_build. pose proof (bs_init_eq_reinit (b_sigma r)) as E.
+  f_equal; try (symmetry; apply E); try (symmetry; apply (proj1 E)); try (symmetry; apply (proj1 (proj2 E))); try (symmetry; apply (proj2 (proj2 E))).
+Qed.
+Lemma bs_fields_complete r : length (bs_fields r) = bs_nfields.
+Proof. reflexivity. Qed.
+Lemma bs_set_valid r f v : bs_valid r = true -> bs_valid (fst (bs_set r f v)) = true.
+Proof.
+  intro H. unfold bs_set. destruct (bs_guard f v) eqn:E; [|exact H].
+  unfold bs_valid in *. split_valid H. destruct f; simpl in *; close_valid.
+Qed.
+Lemma bs_run_valid ops : forall r, bs_valid r = true -> bs_valid (bs_run ops r) = true.
+Proof. induction ops as [|op ops IH]; intros r H; simpl; [exact H|]. apply IH, bs_set_valid, H. Qed.
+Lemma bs_construct_valid sigma r :
+  bs_construct sigma = Built r -> bs_valid r = true /\ bs_defined r = true /\ r = bs_build sigma.
+Proof. unfold bs_construct. destruct (bs_valid _) eqn:E; [destruct (bs_defined _) eqn:D|]; intro H; inversion H; subst; auto. Qed.
+Lemma bs_rebuild_valid r : bs_valid r = true -> bs_rebuild r = bs_initialisation_checked r.
+Proof.
+  intro H. unfold bs_rebuild, bs_construct, bs_initialisation_checked. rewrite <- bs_initialisation_is_build.
+  change (bs_valid (bs_initialisation r)) with (bs_valid r). change (bs_defined (bs_initialisation r)) with (bs_defined r).
+  rewrite H. reflexivity.
+Qed.
+Lemma bs_sync ops r0 : bs_valid r0 = true ->
+  bs_rebuild (bs_run ops r0) = bs_initialisation_checked (bs_run ops r0).
+Proof. intro H. apply bs_rebuild_valid, bs_run_valid, H. Qed.
+Lemma bs_set_rejects r f v : bs_guard f v = false -> bs_set r f v = (r, false).
+Proof. intro H. unfold bs_set. rewrite H. reflexivity. Qed.
+Lemma bs_set_accepts r f v : bs_guard f v = true -> bs_set r f v = (bs_write f v r, true).
+Proof. intro H. unfold bs_set. rewrite H. reflexivity. Qed.
+(* the value of the objective at a trial value does not depend on the earlier trial values written into the same copy *)
+Lemma bs_trial_absorbs r f x y : bs_guard f x = true -> bs_guard f y = true ->
+  bs_initialisation (fst (bs_set (bs_initialisation (fst (bs_set r f y))) f x)) = bs_initialisation (fst (bs_set r f x)).
+Proof. intros Hx Hy. unfold bs_set. rewrite Hx, Hy. destruct f; reflexivity. Qed.
+
+(* ---------- the predicate of every field of every class ---------- *)
+Lemma hem_guard_spec v :
+  (hem_guard HSigma v = true <-> 0 <= v) /\ (hem_guard HP v = true <-> 0 < v) /\ (hem_guard HEta1 v = true <-> 0 < v)
+  /\ (hem_guard HEta2 v = true <-> 0 < v) /\ (hem_guard HIntensity v = true <-> 0 <= v) /\ hem_guard HXi v = true.
+Proof.
+  simpl. unfold hem_guard_sigma, hem_guard_p, hem_guard_eta1, hem_guard_eta2, hem_guard_intensity.
+  repeat split; try apply cond_positive_spec; try apply cond_strictly_positive_spec.
+Qed.
+Lemma merton_guard_spec v :
+  (merton_guard MSigma v = true <-> 0 <= v) /\ (merton_guard MMuJ v = true <-> 0 <= v)
+  /\ (merton_guard MSigmaJ v = true <-> 0 < v) /\ (merton_guard MIntensity v = true <-> 0 <= v).
+Proof.
+  simpl. unfold merton_guard_sigma, merton_guard_mu_j, merton_guard_sigma_j, merton_guard_intensity.
+  repeat split; try apply cond_positive_spec; try apply cond_strictly_positive_spec.
+Qed.
+(* only sigma is constrained in the code: nu and theta are plain attributes *)
+Lemma vg_guard_spec v :
+  (vg_guard VSigma v = true <-> 0 <= v) /\ vg_guard VNu v = true /\ vg_guard VTheta v = true
+  /\ vg_guard VC v = true /\ vg_guard VLambdaP v = true /\ vg_guard VLambdaM v = true.
+Proof. simpl. unfold vg_guard_sigma, vg_guard_nu, vg_guard_theta. repeat split; apply cond_positive_spec. Qed.
 Lemma cgmy_guard_spec v :
   (cgmy_guard CC v = true <-> 0 < v) /\ (cgmy_guard CG v = true <-> 0 <= v) /\ (cgmy_guard CM v = true <-> 0 <= v)
   /\ (cgmy_guard CY v = true <-> v < 2) /\ cgmy_guard CCGammamY v = true /\ cgmy_guard CMpowerY v = true /\ cgmy_guard CGpowerY v = true.
@@ -193,140 +254,142 @@ Proof.
   simpl. unfold cgmy_guard_c, cgmy_guard_g, cgmy_guard_m, cgmy_guard_y.
   repeat split; try apply cond_positive_spec; try apply cond_strictly_positive_spec; try apply cond_strictly_less_than_spec.
 Qed.
+Lemma bs_guard_spec v : (bs_guard BSigma v = true <-> 0 <= v) /\ bs_guard BVariance v = true.
+Proof. simpl. unfold bs_guard_sigma. split; [apply cond_positive_spec | reflexivity]. Qed.
+
+(* where Python divides by zero *)
+Lemma hem_defined_spec r : hem_defined r = true <-> ~ h_eta1 r == 1 /\ ~ h_eta2 r == -(1).
+Proof.
+  unfold hem_defined. rewrite andb_true_iff, !negb_true_iff. split.
+  - intros [A B]. split; intro E.
+    + assert (Qeq_bool (h_eta1 r - 1) 0 = true) by (apply Qeq_bool_iff; rewrite E; ring). congruence.
+    + assert (Qeq_bool (h_eta2 r + 1) 0 = true) by (apply Qeq_bool_iff; rewrite E; ring). congruence.
+  - intros [A B]. split.
+    + destruct (Qeq_bool (h_eta1 r - 1) 0) eqn:E; auto. apply Qeq_bool_iff in E. exfalso. apply A. lra.
+    + destruct (Qeq_bool (h_eta2 r + 1) 0) eqn:E; auto. apply Qeq_bool_iff in E. exfalso. apply B. lra.
+Qed.
+Lemma vg_defined_spec r : vg_defined r = true <-> ~ v_nu r == 0 /\ ~ v_sigma r == 0.
+Proof.
+  unfold vg_defined. rewrite andb_true_iff, !negb_true_iff. split.
+  - intros [A B]. split; intro E.
+    + assert (Qeq_bool (v_nu r) 0 = true) by (apply Qeq_bool_iff; exact E). congruence.
+    + assert (Qeq_bool (v_sigma r ^ 2) 0 = true) by (apply Qeq_bool_iff; rewrite E; reflexivity). congruence.
+  - intros [A B]. split.
+    + destruct (Qeq_bool (v_nu r) 0) eqn:E; auto. apply Qeq_bool_iff in E. contradiction.
+    + destruct (Qeq_bool (v_sigma r ^ 2) 0) eqn:E; auto. apply Qeq_bool_iff in E. exfalso. apply B.
+      simpl in E. assert (H : v_sigma r * v_sigma r == 0) by exact E. apply Qmult_integral in H. tauto.
+Qed.
 
 End P.
 
-(* ================================================================== calibration: specification level
-   Full statement of the property (NOT proved here): "calibrate_model_parameter returns a value inside the
-   admissible interval for which the model reprices the target within the root-finder tolerance, or raises".
-   Existence of a root and convergence of scipy.optimize.brentq are hypotheses (`Root`), not conclusions. *)
+(* ================================================================== calibration: heap model, specification of the root finder *)
 Section CalibSpec.
   Variable Rec Field : Type.
   Variable set : Rec -> Field -> Q -> Rec * bool.
   Variable initialisation : Rec -> Rec.
-  Variable rebuild : Rec -> option Rec.
-  Variable valid : Rec -> bool.
   Variable price : Rec -> Q.
-  Hypothesis sync1 : forall r f v, valid r = true -> rebuild (fst (set r f v)) = Some (initialisation (fst (set r f v))).
+  Variable dflt : Rec.
+  Notation load := (load Rec dflt).
+  Notation store := (store Rec).
+  Notation deepcopy := (deepcopy Rec dflt).
+  Notation run_trials := (run_trials Rec Field set initialisation price dflt).
+  Notation calibration_fun := (calibration_fun Rec Field set initialisation price dflt).
+  Notation calibrate := (calibrate_model_parameter Rec Field set initialisation price dflt).
+  Notation run_default := (run_default_calibration Rec Field set initialisation price dflt).
 
-  Lemma calibration_spec r0 f market a b tol x :
-    valid r0 = true -> Root Rec Field set initialisation price r0 f market a b tol x ->
-    let out := run_default_calibration_model Rec Field set initialisation r0 f x in
-    fst out = r0                                             (* the input model's parameters are untouched *)
-    /\ (a <= x /\ x <= b)                                    (* the calibrated value lies in the admissible interval *)
-    /\ rebuild (fst (set r0 f x)) = Some (snd out)           (* the returned parameters = direct construction with the final values *)
-    /\ Qabs (price (snd out) - market) <= tol.               (* and reprice the target within the tolerance *)
+  Lemma length_store h : forall p r, length (store h p r) = length h.
+  Proof. induction h as [|x h IH]; intros [|p] r; simpl; auto. Qed.
+  Lemma load_store_same h : forall p r, (p < length h)%nat -> load (store h p r) p = r.
+  Proof. unfold Params.load. induction h as [|x h IH]; intros [|p] r H; simpl in *; try lia; auto. apply IH. lia. Qed.
+  Lemma load_store_other h : forall p q r, p <> q -> load (store h q r) p = load h p.
   Proof.
-    intros Hv (Ha & Hb & Hr). unfold run_default_calibration_model, calib_params; simpl.
-    repeat split; auto.
+    unfold Params.load. induction h as [|x h IH]; intros [|p] [|q] r H; simpl; auto; try congruence.
+    apply IH. congruence.
+  Qed.
+  Lemma load_app_old h l p : (p < length h)%nat -> load (h ++ l) p = load h p.
+  Proof. intro H. unfold Params.load. apply app_nth1, H. Qed.
+  Lemma load_app_new h r : load (h ++ [r]) (length h) = r.
+  Proof. unfold Params.load. rewrite app_nth2 by lia. rewrite Nat.sub_diag. reflexivity. Qed.
+
+  (* the trials write only at q *)
+  Lemma run_trials_frame q f m xs : forall st st', run_trials q f m st xs = Some st' ->
+    length st' = length st /\ forall p, p <> q -> load st' p = load st p.
+  Proof.
+    induction xs as [|x xs IH]; intros st st' H; simpl in H.
+    - inversion H; subst. auto.
+    - unfold Params.calibration_fun in H. destruct (set (load st q) f x) as [r' ok]. destruct ok; [|discriminate].
+      apply IH in H. destruct H as [HL HF]. rewrite length_store in HL. split; [exact HL|].
+      intros p Hp. rewrite HF by exact Hp. apply load_store_other, Hp.
+  Qed.
+  (* a trial value refused by the setter aborts the calibration (Python: ValueError out of brentq) *)
+  Lemma run_trials_rejected q f m x : (forall r, snd (set r f x) = false) ->
+    forall xs st, In x xs -> run_trials q f m st xs = None.
+  Proof.
+    intros Hrej xs. induction xs as [|y xs IH]; intros st Hin; [destruct Hin|]. simpl.
+    unfold Params.calibration_fun. destruct (set (load st q) f y) as [r' ok] eqn:E. destruct ok; [|reflexivity].
+    destruct Hin as [-> | Hin]; [|apply IH, Hin].
+    specialize (Hrej (load st q)). rewrite E in Hrej. discriminate.
+  Qed.
+
+  (* calibrate_model_parameter (with the deep copy): every object that existed before is untouched, whatever brentq tried *)
+  Lemma calibrate_input_untouched h p f m xs h' : calibrate false h p f m xs = Some h' ->
+    length h' = S (length h) /\ forall p', (p' < length h)%nat -> load h' p' = load h p'.
+  Proof.
+    unfold Params.calibrate_model_parameter, Params.deepcopy. intro H. apply run_trials_frame in H. destruct H as [HL HF].
+    rewrite app_length in HL. simpl in HL. split; [lia|].
+    intros p' Hp'. rewrite HF by lia. apply load_app_old, Hp'.
+  Qed.
+  Lemma calibrate_rejected h p f m x xs alias : (forall r, snd (set r f x) = false) -> In x xs -> calibrate alias h p f m xs = None.
+  Proof.
+    intros Hrej Hin. unfold Params.calibrate_model_parameter. destruct alias; simpl; apply run_trials_rejected; assumption.
+  Qed.
+
+  (* run_default_calibration: input untouched, the returned parameters are a NEW object holding
+     initialisation(input with f := x); a refused x is an error *)
+  Lemma run_default_spec h p f m xs x h' q : (p < length h)%nat -> run_default h p f m xs x = Some (h', q) ->
+    (forall p', (p' < length h)%nat -> load h' p' = load h p')
+    /\ (length h <= q)%nat
+    /\ snd (set (load h p) f x) = true
+    /\ load h' q = initialisation (fst (set (load h p) f x)).
+  Proof.
+    intros Hp H. unfold Params.run_default_calibration in H.
+    destruct (calibrate false h p f m xs) as [h1|] eqn:E1; [|discriminate].
+    apply calibrate_input_untouched in E1. destruct E1 as [L1 F1].
+    unfold Params.deepcopy in H. rewrite load_app_new in H. rewrite (F1 p Hp) in H.
+    destruct (set (load h p) f x) as [r' ok] eqn:E2. destruct ok; [|discriminate]. inversion H; subst. clear H.
+    repeat split.
+    - intros p' Hp'. rewrite load_store_other by lia. rewrite load_app_old by lia. apply F1, Hp'.
+    - lia.
+    - simpl. apply load_store_same. rewrite app_length. simpl. lia.
+  Qed.
+  Lemma run_default_rejected h p f m xs x : (forall r, snd (set r f x) = false) -> run_default h p f m xs x = None.
+  Proof.
+    intro Hrej. unfold Params.run_default_calibration. destruct (calibrate false h p f m xs) as [h1|]; [|reflexivity].
+    unfold Params.deepcopy. specialize (Hrej (load (h1 ++ [load h1 p]) (length h1))).
+    destruct (set _ f x) as [r' ok]. simpl in Hrej. subst. reflexivity.
   Qed.
 End CalibSpec.
 
-Section CalibInst.
-Variable fsqrt : Q -> Q.
-Variable fgamma : Q -> Q.
-Variable fpow : Q -> Q -> Q.
-Lemma hem_sync1 r f v : hem_valid r = true -> hem_rebuild (fst (hem_set r f v)) = Some (hem_initialisation (fst (hem_set r f v))).
-Proof. intro H. exact (hem_sync [(f, v)] r H). Qed.
-Lemma merton_sync1 r f v : merton_valid r = true -> merton_rebuild (fst (merton_set r f v)) = Some (merton_initialisation (fst (merton_set r f v))).
-Proof. intro H. exact (merton_sync [(f, v)] r H). Qed.
-Lemma vg_sync1 r f v : vg_valid r = true -> vg_rebuild fsqrt (fst (vg_set r f v)) = Some (vg_initialisation fsqrt (fst (vg_set r f v))).
-Proof. intro H. exact (vg_sync fsqrt [(f, v)] r H). Qed.
-Lemma cgmy_sync1 r f v : cgmy_valid r = true ->
-  cgmy_rebuild fgamma fpow (fst (cgmy_set r f v)) = Some (cgmy_initialisation fgamma fpow (fst (cgmy_set r f v))).
-Proof. intro H. exact (cgmy_sync fgamma fpow [(f, v)] r H). Qed.
-End CalibInst.
-
-(* ------------------------------------------------------------------ statements as they appear in Properties/C20.v *)
-Lemma init_eq_reinit_all : forall (fsqrt fgamma : Q -> Q) (fpow : Q -> Q -> Q),
-  (forall sigma p eta1 eta2 intensity, hem_init_xi sigma p eta1 eta2 intensity = hem_reinit_xi sigma p eta1 eta2 intensity)
-  /\ (forall sigma nu theta,
-        vg_init_c fsqrt sigma nu theta = vg_reinit_c fsqrt sigma nu theta
-        /\ vg_init_lambda_p fsqrt sigma nu theta = vg_reinit_lambda_p fsqrt sigma nu theta
-        /\ vg_init_lambda_m fsqrt sigma nu theta = vg_reinit_lambda_m fsqrt sigma nu theta)
-  /\ (forall c g m y,
-        cgmy_init_CGammamY fgamma fpow c g m y = cgmy_reinit_CGammamY fgamma fpow c g m y
-        /\ cgmy_init_MpowerY fgamma fpow c g m y = cgmy_reinit_MpowerY fgamma fpow c g m y
-        /\ cgmy_init_GpowerY fgamma fpow c g m y = cgmy_reinit_GpowerY fgamma fpow c g m y).
-Proof. intros. split; [exact hem_init_eq_reinit | split; [exact (vg_init_eq_reinit fsqrt) | exact (cgmy_init_eq_reinit fgamma fpow)]]. Qed.
-
-Lemma sync_after_any_history_all : forall (fsqrt fgamma : Q -> Q) (fpow : Q -> Q -> Q),
-  (forall sigma p eta1 eta2 intensity r0 ops, hem_construct sigma p eta1 eta2 intensity = Some r0 ->
-     hem_rebuild (hem_run ops r0) = Some (hem_initialisation (hem_run ops r0)))
-  /\ (forall sigma mu_j sigma_j intensity r0 ops, merton_construct sigma mu_j sigma_j intensity = Some r0 ->
-     merton_rebuild (merton_run ops r0) = Some (merton_initialisation (merton_run ops r0)))
-  /\ (forall sigma nu theta r0 ops, vg_construct fsqrt sigma nu theta = Some r0 ->
-     vg_rebuild fsqrt (vg_run ops r0) = Some (vg_initialisation fsqrt (vg_run ops r0)))
-  /\ (forall c g m y r0 ops, cgmy_construct fgamma fpow c g m y = Some r0 ->
-     cgmy_rebuild fgamma fpow (cgmy_run ops r0) = Some (cgmy_initialisation fgamma fpow (cgmy_run ops r0))).
+(* what the bracket promised by brentq gives for the residual, under a Lipschitz bound on the objective *)
+Lemma brent_reprices (g : Q -> Q) (m a b delta x L : Q) :
+  0 <= L -> Lipschitz g a b L -> BrentSpec (fun y => g y - m) a b delta x ->
+  (a <= x /\ x <= b) /\ Qabs (g x - m) <= L * delta.
 Proof.
-  intros. repeat split; intros.
-  - apply hem_sync. eapply hem_construct_valid; eassumption.
-  - apply merton_sync. eapply merton_construct_valid; eassumption.
-  - apply vg_sync. eapply vg_construct_valid; eassumption.
-  - apply cgmy_sync. eapply cgmy_construct_valid; eassumption.
+  intros HL Hlip (x1 & x2 & H1 & H2 & H3 & H4 & H5 & H6).
+  assert (Hx : a <= x /\ x <= b) by (split; lra).
+  split; [exact Hx|].
+  assert (B1 : Qabs (g x - g x1) <= L * Qabs (x - x1)) by (apply Hlip; lra).
+  assert (B2 : Qabs (g x - g x2) <= L * Qabs (x - x2)) by (apply Hlip; lra).
+  assert (A1 : Qabs (x - x1) <= delta). { apply Qabs_Qle_condition. lra. }
+  assert (A2 : Qabs (x - x2) <= delta). { apply Qabs_Qle_condition. lra. }
+  assert (C1 : Qabs (g x - g x1) <= L * delta). { eapply Qle_trans; [exact B1|]. nra. }
+  assert (C2 : Qabs (g x - g x2) <= L * delta). { eapply Qle_trans; [exact B2|]. nra. }
+  apply Qabs_Qle_condition in C1. apply Qabs_Qle_condition in C2. apply Qabs_Qle_condition.
+  set (u := g x - m) in *. set (u1 := g x1 - m) in *. set (u2 := g x2 - m) in *.
+  assert (E1 : g x - g x1 == u - u1) by (unfold u, u1; ring). assert (E2 : g x - g x2 == u - u2) by (unfold u, u2; ring).
+  rewrite E1 in C1. rewrite E2 in C2. clearbody u u1 u2. clear - C1 C2 H6 HL.
+  destruct (Qlt_le_dec 0 u1) as [P1|P1]; destruct (Qlt_le_dec 0 u2) as [P2|P2]; try lra.
+  - exfalso. assert (0 < u1 * u2) by nra. lra.
+  - destruct (Qlt_le_dec u1 0) as [N1|N1]; destruct (Qlt_le_dec u2 0) as [N2|N2]; try lra.
+    exfalso. assert (0 < u1 * u2) by nra. lra.
 Qed.
-
-Lemma constraints_all :
-  (forall r f v, hem_guard f v = false -> hem_set r f v = (r, false))
-  /\ (forall r f v, hem_guard f v = true -> hem_set r f v = (hem_write f v r, true))
-  /\ (forall v, (hem_guard HSigma v = true <-> 0 <= v) /\ (hem_guard HP v = true <-> 0 < v) /\ (hem_guard HEta1 v = true <-> 0 < v)
-        /\ (hem_guard HEta2 v = true <-> 0 < v) /\ (hem_guard HIntensity v = true <-> 0 <= v) /\ hem_guard HXi v = true)
-  /\ (forall r f v, merton_guard f v = false -> merton_set r f v = (r, false))
-  /\ (forall r f v, merton_guard f v = true -> merton_set r f v = (merton_write f v r, true))
-  /\ (forall v, (merton_guard MSigma v = true <-> 0 <= v) /\ (merton_guard MMuJ v = true <-> 0 <= v)
-        /\ (merton_guard MSigmaJ v = true <-> 0 < v) /\ (merton_guard MIntensity v = true <-> 0 <= v))
-  /\ (forall r f v, vg_guard f v = false -> vg_set r f v = (r, false))
-  /\ (forall r f v, vg_guard f v = true -> vg_set r f v = (vg_write f v r, true))
-  /\ (forall v, (vg_guard VSigma v = true <-> 0 <= v) /\ vg_guard VNu v = true /\ vg_guard VTheta v = true
-        /\ vg_guard VC v = true /\ vg_guard VLambdaP v = true /\ vg_guard VLambdaM v = true)
-  /\ (forall r f v, cgmy_guard f v = false -> cgmy_set r f v = (r, false))
-  /\ (forall r f v, cgmy_guard f v = true -> cgmy_set r f v = (cgmy_write f v r, true))
-  /\ (forall v, (cgmy_guard CC v = true <-> 0 < v) /\ (cgmy_guard CG v = true <-> 0 <= v) /\ (cgmy_guard CM v = true <-> 0 <= v)
-        /\ (cgmy_guard CY v = true <-> v < 2) /\ cgmy_guard CCGammamY v = true /\ cgmy_guard CMpowerY v = true /\ cgmy_guard CGpowerY v = true).
-Proof.
-  repeat apply conj.
-  - exact hem_set_rejects. - exact hem_set_accepts. - exact hem_guard_spec.
-  - exact merton_set_rejects. - exact merton_set_accepts. - exact merton_guard_spec.
-  - exact vg_set_rejects. - exact vg_set_accepts. - exact vg_guard_spec.
-  - exact cgmy_set_rejects. - exact cgmy_set_accepts. - exact cgmy_guard_spec.
-Qed.
-
-Lemma calibration_spec_all : forall (fsqrt fgamma : Q -> Q) (fpow : Q -> Q -> Q),
-  (forall price r0 f market a b tol x, hem_valid r0 = true ->
-     Root HemRec HemField hem_set hem_initialisation price r0 f market a b tol x ->
-     let out := run_default_calibration_model HemRec HemField hem_set hem_initialisation r0 f x in
-     fst out = r0 /\ (a <= x /\ x <= b) /\ hem_rebuild (fst (hem_set r0 f x)) = Some (snd out) /\ Qabs (price (snd out) - market) <= tol)
-  /\ (forall price r0 f market a b tol x, merton_valid r0 = true ->
-     Root MertonRec MertonField merton_set merton_initialisation price r0 f market a b tol x ->
-     let out := run_default_calibration_model MertonRec MertonField merton_set merton_initialisation r0 f x in
-     fst out = r0 /\ (a <= x /\ x <= b) /\ merton_rebuild (fst (merton_set r0 f x)) = Some (snd out) /\ Qabs (price (snd out) - market) <= tol)
-  /\ (forall price r0 f market a b tol x, vg_valid r0 = true ->
-     Root VgRec VgField vg_set (vg_initialisation fsqrt) price r0 f market a b tol x ->
-     let out := run_default_calibration_model VgRec VgField vg_set (vg_initialisation fsqrt) r0 f x in
-     fst out = r0 /\ (a <= x /\ x <= b) /\ vg_rebuild fsqrt (fst (vg_set r0 f x)) = Some (snd out) /\ Qabs (price (snd out) - market) <= tol)
-  /\ (forall price r0 f market a b tol x, cgmy_valid r0 = true ->
-     Root CgmyRec CgmyField cgmy_set (cgmy_initialisation fgamma fpow) price r0 f market a b tol x ->
-     let out := run_default_calibration_model CgmyRec CgmyField cgmy_set (cgmy_initialisation fgamma fpow) r0 f x in
-     fst out = r0 /\ (a <= x /\ x <= b) /\ cgmy_rebuild fgamma fpow (fst (cgmy_set r0 f x)) = Some (snd out)
-     /\ Qabs (price (snd out) - market) <= tol).
-Proof.
-  intros. repeat apply conj; intros price r0 f market a b tol x Hv HR.
-  - exact (calibration_spec _ _ _ _ _ hem_valid price hem_sync1 r0 f market a b tol x Hv HR).
-  - exact (calibration_spec _ _ _ _ _ merton_valid price merton_sync1 r0 f market a b tol x Hv HR).
-  - exact (calibration_spec _ _ _ _ _ vg_valid price (vg_sync1 fsqrt) r0 f market a b tol x Hv HR).
-  - exact (calibration_spec _ _ _ _ _ cgmy_valid price (cgmy_sync1 fgamma fpow) r0 f market a b tol x Hv HR).
-Qed.
-
-Lemma nonvacuous_c20 :
-  match hem_construct (1#20) (3#5) 20 25 3 with
-  | Some r0 =>
-      let r := hem_run [(HEta1, 10); (HP, -1); (HXi, 7); (HP, 1#2)] r0 in
-      snd (hem_set r0 HP (-1)) = false /\ h_p r = 1#2 /\ h_xi r = 7
-      /\ Qeq_bool (h_xi (hem_initialisation r)) ((5#9) + (25#52) - 1) = true
-      /\ hem_rebuild r = Some (hem_initialisation r)
-  | None => False
-  end
-  /\ hem_construct (1#20) (-1) 20 25 3 = None
-  /\ cgmy_construct (fun x => x) (fun x y => x) 1 15 20 2 = None.
-Proof. vm_compute. repeat split. Qed.
